@@ -127,7 +127,16 @@ func (p *Profile) activated(jdk string, os ActivationOS) (bool, error) {
 			got = strings.ToLower(got)
 			return negate && got != want || !negate && got == want
 		}
-		if !isAllowed(act.OS.Family, os.Family) ||
+		// Maven matches a family name it does not know (such as linux)
+		// against the OS name.
+		familyAllowed := func(value String) bool {
+			family := strings.ToLower(strings.TrimPrefix(string(value), "!"))
+			if family == "" || knownOSFamilies[family] {
+				return isAllowed(value, os.Family)
+			}
+			return strings.Contains(string(os.Name), family) != strings.HasPrefix(string(value), "!")
+		}
+		if !familyAllowed(act.OS.Family) ||
 			!isAllowed(act.OS.Name, os.Name) ||
 			!isAllowed(act.OS.Version, os.Version) ||
 			!isAllowed(act.OS.Arch, os.Arch) {
@@ -156,6 +165,12 @@ const (
 	// TODO: this should be abstracted and set as an option.
 	JDKProfileActivation = "11.0.8"
 )
+
+// knownOSFamilies holds the OS family names known to Maven (plexus-utils Os).
+var knownOSFamilies = map[string]bool{
+	"dos": true, "mac": true, "netware": true, "openvms": true, "os/2": true, "os/400": true,
+	"tandem": true, "unix": true, "win9x": true, "windows": true, "z/os": true,
+}
 
 var (
 	// OSProfileActivation holds the OS settings used for profile
